@@ -204,19 +204,19 @@ Proof.
 Qed.
 
 (** * Safety of what the dialect planners emit *)
-Theorem dialect_safe_except cs c S h :
+Theorem dialect_safe_ordered cs c S h :
   refines h -> WF cs -> consistent c cs ->
-  (sortMap cs = SMCycle -> no_repoint_to_added cs) ->
+  (sortMap cs = SMCycle -> repoint_ordered cs) ->
   detach_spec cs S ->
   exists c', replay (flat_map h (partition_changes S)) c = Some c'.
 Proof.
   intros Hh HWF Hcons Hex HS. apply split_replay_ok. apply (refine_split_ok h Hh).
-  apply (safe_except_split cs c S HWF Hcons Hex HS).
+  apply (safe_ordered cs c S HWF Hcons Hex HS).
 Qed.
 
-Theorem plan_dialect_safe_except cs c :
+Theorem plan_dialect_safe cs c :
   WF cs -> consistent c cs ->
-  (sortMap cs = SMCycle -> no_repoint_to_added cs) ->
+  (sortMap cs = SMCycle -> repoint_ordered cs) ->
   exists l, plan cs = POk l /\
     (exists c1, replay l c = Some c1) /\
     (exists c2, replay (flat_map mysql_sources l) c = Some c2) /\
@@ -224,9 +224,18 @@ Theorem plan_dialect_safe_except cs c :
 Proof.
   intros HWF Hcons Hex. destruct (DetachCycles_total cs) as [S HS].
   pose proof (DetachCycles_spec cs S HS) as Hspec.
-  destruct (safe_except cs c S HWF Hcons Hex Hspec) as [H1 H2].
+  destruct (safe_ordered cs c S HWF Hcons Hex Hspec) as [H1 H2].
   exists (partition_changes S). split; [unfold plan; rewrite HS, H1; reflexivity|].
-  split; [exact H2|]. split.
-  - apply (dialect_safe_except cs c S mysql_sources mysql_refines HWF Hcons Hex Hspec).
-  - apply (dialect_safe_except cs c S pg_sources pg_refines HWF Hcons Hex Hspec).
+  split; [apply (split_replay_ok _ _ H2)|]. split.
+  - apply (dialect_safe_ordered cs c S mysql_sources mysql_refines HWF Hcons Hex Hspec).
+  - apply (dialect_safe_ordered cs c S pg_sources pg_refines HWF Hcons Hex Hspec).
 Qed.
+
+Corollary plan_dialect_safe_except cs c :
+  WF cs -> consistent c cs ->
+  (sortMap cs = SMCycle -> no_repoint_to_added cs) ->
+  exists l, plan cs = POk l /\
+    (exists c1, replay l c = Some c1) /\
+    (exists c2, replay (flat_map mysql_sources l) c = Some c2) /\
+    (exists c3, replay (flat_map pg_sources l) c = Some c3).
+Proof. intros HWF Hcons Hex. apply (plan_dialect_safe cs c HWF Hcons (except_ordered cs Hex)). Qed.
